@@ -65,6 +65,10 @@ CLAIMED = {
   "Deductive proof of totality and progress of the lexer: for every source string, next() and every scanning helper it reaches (read, peek, match, matchOneOf, matchWhile, matchWithUnderscores, matchIdentTail, nonWhiteRemaining, whitespace, lineComment, spanComment, rawString, quotedString, doesc, number, identifier, Next) never index or slice out of range (527 obligations), keep 0 <= position <= len(source), report Item.Pos = starting position, return Eof exactly when called at the end of the source and otherwise strictly advance the position - so token positions strictly increase and scanning terminates; every loop has a proved variant.",
   "Function-valued parameters (IsDigit, IsHexDigit, isIdentChar) are modelled as pure predicates that are false for 0 and each call site is obliged to pass such a function; the lexer's keyword callback and intern.String/strings.ReplaceAll are assumed effect-free. Sources are assumed shorter than 2^31 bytes (Item.Pos is int32). NOT covered: the parser (recursive descent reporting errors by panic), the 'tokens tile the source' text equality for processed tokens, Ahead/AheadSkip buffering.",
   "DESIGN.md §4 C32"),
+ "C13": (
+  "Deductive proof about packed scalar values: (1) the fixed-size Encoder/Decoder primitives of util/pack (Put1/2/4, Put, PutStr, Uint16/Uint32/Int32 and their decoders) against exact byte-level contracts incl. capacity, frame and big-endian round-trip/order lemmas; (2) SuDnum.PackSize equals the number of bytes SuDnum.Pack writes (no buffer overrun), Pack writes exactly tag, exponent byte and the base-100 digit pairs of the coefficient with trailing zero pairs dropped and every byte complemented for negative numbers (10 byte-level post-conditions), unpackDnum rebuilds sign/exponent/coefficient from those bytes, with lemmas that the pairs are in 0..99, recombine to the coefficient and that dropped pairs are zero (so unpack inverts pack); (3) ORDER: three lemmas over the proved byte functions show that the byte order of packed decimals equals the decimal order for all non-negative pairs, all mixed-sign pairs and all negative pairs except the prefix class below; (4) packSizeInt against a digit-level definition for all int64 (three loops completely unrolled, unwinding obligations discharged); (5) SuBool, SuStr, SuDate, SuTimestamp Pack/PackSize byte-exact, UnpackDate/UnpackTimestamp inverse on those bytes.",
+  "KNOWN FINDING (genuine defect, not repaired, see known_findings.jsonl and findings/C13-negative-prefix-order): two negative numbers whose digit-pair strings are a proper prefix of one another (-12 vs -12.5, -1200 vs -1234) pack in the reverse of their value order; indexes on negative numbers are mis-sorted and range queries return wrong rows. NOT covered: packInt's bytes (only its size; the obligations did not discharge), hence 'equal scalars pack to identical bytes' between SuInt64 and SuDnum is not proved; unpackInt/intable; objects/records (nesting, PackSize2 stack); the value-level composition Unpack(Pack(v)).Equal(v) is argued from the byte-level contracts, not stated as one theorem. Sequential semantics; hacks.BStoS assumed.",
+  "DESIGN.md §0.3 C13"),
  "C18": (
   "Deductive proof (64-bit bit-vector arithmetic, exact) of the allocation arithmetic of Stor: Alloc returns offset = new size - n, i.e. the window [old size', old size'+n) of the atomically advanced size counter, never straddling a chunk boundary (when the advance would straddle, extend() moves the counter to the start of the next chunk and Alloc retries), the returned slice has exactly len = cap = n and starts at chunk[offset & (chunksize-1)] of chunk offset>>shift; Data/offsetToChunk proved against those definitions incl. bounds; extend keeps previously published chunks and publishes one fresh chunk; the representation invariant (chunksize = 2^shift, chunks value is a [][]byte whose entries have chunksize bytes, size within mapped chunks) is preserved.",
   "sync/atomic operations are modelled as sequential steps with their documented effects (assumed library contracts); each Alloc is verified as if it ran alone; the concurrent half of the property is carried by machine-checked interference (guarantee) clauses that are obliged across EVERY atomic write of Alloc and extend - allocChunk moves by at most one, a chunk is published only after it is in the table and without touching size, size is only rewound beyond every published chunk, the table only grows - while the step from these guarantees plus atomicity of Uint64.Add (distinct Add results => disjoint windows) to 'no two concurrent allocations overlap' is argued by hand, not machine-checked; the retry loop is unrolled 3 times with an unwinding obligation under a sequential schedule. storage.Get is an assumed interface contract (fresh chunk of the configured size). Bounds assumed: shift < 40, chunk count < 999999. Memory-mapped files and FlushTo/Close not covered.",
